@@ -27,6 +27,17 @@ def validator_exact(vname, k, value):
     return True
 
 
+def after(vname, k, first, value):
+    """verdict for `value` after `first` went through the same validator (its own verdict is discarded)"""
+    inst, attribute, qual = ATTRS[k]
+    fn = getattr(VAL, vname)
+    try:
+        fn(inst, attribute, first)
+    except ValueError:
+        pass
+    return validator_exact(vname, k, value)
+
+
 def validator_plain_name(vname, k, value):
     """attribute passed as a plain string: same contract, message contains Class.<name>"""
     inst = ATTRS[k][0]
@@ -56,6 +67,14 @@ def replay(lid, a):
             return (validator_exact(vname, a["k"], a["b"]) is True, "bool argument rejected")
         if kind == "none":
             return (validator_exact(vname, a["k"], None) is False and validator_exact(vname, a["k"], [1]) is False, "None / list accepted")
+        if kind in ("histf", "histi"):
+            first = float(a["x"]) if kind == "histf" else a["y"]
+            got = after(vname, a["k"], first, a["x"])
+            return (got == (lo <= a["x"] <= hi), "%s(%r) after %s(%r) -> %s" % (vname, a["x"], vname, first, got))
+        if kind == "histb":
+            first, x = (2.0, 2) if a["b"] else (-1.0, -1)
+            got = after(vname, a["k"], first, x)
+            return (got == (lo <= x <= hi), "%s(%r) after %s(%r) -> %s" % (vname, x, vname, first, got))
         if kind == "name":
             return (validator_plain_name(vname, a["k"], a["x"]), "message does not name Class.attribute for a plain-string attribute")
     except AssertionError as e:
